@@ -253,6 +253,11 @@ pub fn exec(rest: &str, out: &mut Out) -> (String, bool) {
                 out.oracle(o.is_empty() == spec.is_empty() && o.first().map(|e| e.key.as_str()) == spec.first().map(|e| e.0.as_str()) && o.last().map(|e| e.key.as_str()) == spec.last().map(|e| e.0.as_str()), "len/first/last", || op.to_string());
                 let mut line = format!("{}#{}#{}", res, show_obj(&o), json_syntax_dup(&o));
                 if flags.contains('q') { line.push('#'); line.push_str(&queries(&o, &spec, &keys, out)); }
+                // without the cfg hook (fallback build when the hook no longer compiles against a
+                // refactored index) the dump segment is the marker `nohook`
+                #[cfg(not(json_syntax_verif))]
+                if flags.contains('b') { line.push_str("#nohook"); }
+                #[cfg(json_syntax_verif)]
                 if flags.contains('b') {
                     let mut d = o.verif_index_dump();
                     d.sort();
